@@ -159,9 +159,16 @@ OnOuterChunk(t, final, st, c) ==
          IN [s3 EXCEPT !.out = Append(@, CEv(xx, c.gl, c.gc,
                                             IF gsi >= 0 THEN <<gsi, d.ol, ioc, fni>> ELSE <<>>))]
      ELSE IF t.remove THEN unmapped(st)
-     ELSE \* the inner source itself is reported
+     ELSE \* the inner source itself is reported.  The code looks its name up in the
+          \* table of announced sources but files the new entry under the generated
+          \* TEXT (a shadowed variable): an inner map that also names this file
+          \* announces it a second time
        LET g == Get(st.sim, si, -1)
-           r == IF g = -2 THEN WithSource(st, t.name, st.innerSrc) ELSE <<st, g>>
+           found == IdxOf(st.src, t.name)
+           r == IF g # -2 THEN <<st, g>>
+                ELSE IF found >= 0 THEN <<st, found>>
+                ELSE <<[st EXCEPT !.src = Append(@, t.b),
+                                  !.out = Append(@, SEv(Len(st.src), t.name, st.innerSrc))], Len(st.src)>>
            s1 == IF g = -2 THEN [r[1] EXCEPT !.sim = PutF(@, si, r[2])] ELSE st
        IN pass(s1)
 
